@@ -34,7 +34,7 @@ SCORERS = [
     ("skchange.change_scores", "ChangeScore", 3, ("skchange.costs", "L2Cost", None)),
     ("skchange.anomaly_scores", "L2Saving", 2, None),
     ("skchange.anomaly_scores", "Saving", 2, ("skchange.costs", "L2Cost", "fixed")),
-    ("skchange.anomaly_scores", "LocalAnomalyScore", 4, ("skchange.costs", "L2Cost", None)),
+    ("skchange.anomaly_scores", "LocalAnomalyScore", 4, ("skchange.costs", "GaussianVarCost", None)),
 ]
 
 
@@ -132,17 +132,19 @@ def check_scorer(ctx, pkg, name, width, inner, mode):
         # -------------------------------------------------- SANITISE-RANGE
         mn, mx = app("minall", cuts_s), app("maxall", cuts_s)
 
+        first_col, last_col = app("col", cuts_s, NF.const(0)), app("col", cuts_s, NF.const(width - 1))
+
         def lowp(c):
-            # any(cuts < 0)   |   cuts.min() < 0
-            if c.t[0] == "any" and c.t[1].t[0] == "cmp" and c.t[1].t[1] == "<0" and nf_equal(c.t[1].t[2], cuts_s):
+            # any(cuts < 0) | cuts.min() < 0 | any(cuts[:, 0] < 0)  (rows are strictly increasing)
+            if c.t[0] == "any" and c.t[1].t[0] == "cmp" and c.t[1].t[1] == "<0" and (nf_equal(c.t[1].t[2], cuts_s) or nf_equal(c.t[1].t[2], first_col)):
                 return True
-            return c.t[0] == "cmp" and c.t[1] == "<0" and nf_equal(c.t[2], mn)
+            return c.t[0] == "cmp" and c.t[1] == "<0" and (nf_equal(c.t[2], mn) or nf_equal(c.t[2], app("minall", first_col)))
 
         def highp(c):
-            # any(cuts > N)   |   cuts.max() > N
-            if c.t[0] == "any" and c.t[1].t[0] == "cmp" and c.t[1].t[1] == "<0" and nf_equal(c.t[1].t[2], n - cuts_s):
+            # any(cuts > N) | cuts.max() > N | any(cuts[:, -1] > N)  (rows are strictly increasing)
+            if c.t[0] == "any" and c.t[1].t[0] == "cmp" and c.t[1].t[1] == "<0" and (nf_equal(c.t[1].t[2], n - cuts_s) or nf_equal(c.t[1].t[2], n - last_col)):
                 return True
-            return c.t[0] == "cmp" and c.t[1] == "<0" and nf_equal(c.t[2], n - mx)
+            return c.t[0] == "cmp" and c.t[1] == "<0" and (nf_equal(c.t[2], n - mx) or nf_equal(c.t[2], n - app("maxall", last_col)))
 
         def holds_on(p, pred):
             for c, v in p.facts:
@@ -172,6 +174,11 @@ def check_scorer(ctx, pkg, name, width, inner, mode):
             want = lambda c: c.t[0] == "any" and c.t[1].t[0] == "cmp" and c.t[1].t[1] == "<0" and nf_equal(c.t[1].t[2], app("diff", cuts_s, "none", "none", 1) - ms)  # noqa: E731
             if name != "LocalAnomalyScore":
                 ctx.check(bool(guard_outcomes(paths, want)), "C13.c CHECK-COMPLETE", f"{name}|min-size-bound", raise_loc(fired[0], loc), "the spacing bound is the scorer's own min_size (strictly increasing and at least min_size apart)", found=[repr(c) for p in fired[:1] for c, v in p.facts if dpred(c)], expected=f"any(diff(cuts) < {ms!r})")
+        if name == "LocalAnomalyScore" and fired:
+            # the four cut points need only be strictly increasing: a flank may be a single sample
+            # (the pooled surroundings and the inner interval are what min_size bounds)
+            want1 = lambda c: c.t[0] == "any" and c.t[1].t[0] == "cmp" and c.t[1].t[1] == "<0" and nf_equal(c.t[1].t[2], app("diff", cuts_s, "none", "none", 1) - 1)  # noqa: E731
+            ctx.check(bool(guard_outcomes(paths, want1)), "C13.c CHECK-COMPLETE", f"{name}|flank-bound", raise_loc(fired[0], loc), "consecutive cut points are required to be strictly increasing only (each flank >= 1 sample); min_size bounds the inner interval and the pooled surroundings, not each flank", found=[repr(c) for p in fired[:1] for c, v in p.facts if dpred(c)], expected="any(diff(cuts) < 1)")
         if name == "LocalAnomalyScore":
             ipred = lambda c: c.t[0] == "any" and c.t[1].t[0] == "cmp" and "colstack" in c.key  # noqa: E731
             sized = guard_outcomes(paths, ipred)
